@@ -88,7 +88,25 @@ def suite_signatures(ctx):
     class Obj:
         def __call__(self, seed, level, params):
             calls.append(('seed,level,params', seed, level, params)); return b'K' + seed
-    algos = [a1, a2, a3, a4, a5, Obj()]
+    import functools
+
+    @functools.wraps(a1)
+    def a6(level, seed, params):            # a wrapper with the full signature around a seed-only routine (functools.wraps: __wrapped__, __name__ of the inner one)
+        calls.append(('seed,level,params', seed, level, params)); return a1_plain(seed)
+
+    def a1_plain(seed):
+        return b'K' + seed
+    a7 = functools.partial(a4)              # no __code__ of its own: gets all three by keyword
+
+    class Device:                           # the algorithm is a bound method of an application object that keeps a record of its own
+        def __init__(self):
+            self.used = []
+
+        def compute(self, seed, level, params):
+            self.used.append((seed, level, params))
+            calls.append(('seed,level,params', seed, level, params)); return b'K' + seed
+    device = Device()
+    algos = [a1, a2, a3, a4, a5, Obj(), a6, a7, device.compute]
     for level in range(1, 0x7F):
         for algo in algos:
             for exc in ((True, True, True), (False, False, False)):
@@ -96,7 +114,10 @@ def suite_signatures(ctx):
                     continue
                 seed = bytes(rng.randrange(1, 256) for _ in range(rng.choice([1, 2, 4, 16, 40])))
                 cfg = cl.Cfg(exc=exc)
-                client, conn = cl.make_client(cfg, extra={'security_algo': algo, 'security_algo_params': {'p': 7}})
+                params = {'p': 7, 'secret': [1, 2]}
+                client, conn = cl.make_client(cfg, extra={'security_algo': algo, 'security_algo_params': params})
+                params['secret'].append(level)          # the application updates its parameter record after the client was built: the algorithm gets that object
+                n_used = len(device.used)
                 k = (level + 1) // 2
                 conn.responder = lambda p, seed=seed: [(1, bytes([0x67, p[1]]) + (seed if p[1] % 2 == 1 else b''))]
                 del calls[:]
@@ -104,13 +125,15 @@ def suite_signatures(ctx):
                 sends = [o[1] for o in conn.log if o[0] == 'send']
                 s.evaluations += 1
                 s.distinct.add('%d:%s' % (level, getattr(algo, '__name__', 'obj')))
-                rec = {'site': 'unlock_security_access signatures', 'level': level, 'algo': getattr(algo, '__name__', 'callable object'), 'input': seed.hex()}
+                rec = {'site': 'unlock_security_access signatures', 'level': level, 'algo': {a6: 'functools.wraps wrapper (level, seed, params) around a seed-only routine', a7: 'functools.partial', device.compute: 'bound method'}.get(algo, getattr(algo, '__name__', 'callable object')) if not isinstance(algo, Obj) else 'callable object', 'input': seed.hex()}
                 want = [bytes([0x27, 2 * k - 1]), bytes([0x27, 2 * k]) + b'K' + seed]
                 if sends != want or verdict != 'ok':
                     s.fail(dict(rec, observed='%s %s' % (verdict, [x.hex() for x in sends]), required=[x.hex() for x in want]))
                 elif len(calls) != 1 or calls[0][1] != seed or ('level' in calls[0][0] and calls[0][2] != level) or \
-                        ('params' in calls[0][0] and calls[0][-1] != {'p': 7}):
-                    s.fail(dict(rec, observed=str(calls), required='one call with that seed, the level as passed and the configured params'))
+                        ('params' in calls[0][0] and (calls[0][-1] is not params or calls[0][-1] != {'p': 7, 'secret': [1, 2, level]})):
+                    s.fail(dict(rec, observed=str(calls)[:300], required='one call with that seed, the level as passed and the configured params object (as it is now: secret [1, 2, %d])' % level))
+                elif algo == device.compute and len(device.used) != n_used + 1:
+                    s.fail(dict(rec, observed='the configured object recorded %d calls' % (len(device.used) - n_used), required='the configured bound method itself is called once'))
     s.exhaustive = ctx.thorough
     s.sample({'level': 0x7E, 'frames': ['277d', '277e4b<seed>']})
     return s
